@@ -30,6 +30,8 @@ func faultMenu(thorough bool) []fw.Fault {
 		// answers that declare no Content-Type
 		// an answer the backend chose to compress (the client asked for nothing of the kind)
 		{Kind: "ok", Gzip: true}, {Kind: "ok", Gzip: true, Chunked: true},
+		// a chunked answer that ends with a trailer field it announced
+		{Kind: "ok", Trailer: true, Chunked: true},
 		{Kind: "ok", CT: "-"}, {Kind: "cut_close", CutAt: 200, CT: "-"}, {Kind: "cut_reset", CutAt: 200, CT: "-"}, {Kind: "trunc_chunked", CT: "-"}, {Kind: "trunc_cl", CT: "-"},
 	}
 	if thorough {
@@ -421,6 +423,13 @@ func judge(run *rep.Run, c *fw.Case) {
 		}
 		if res.Header.Get(fmt.Sprintf("X-Attempt-%d", a.Backend)) != "" {
 			run.Violation("C02/headers-from-two-attempts/"+cls, fmt.Sprintf("response carries a header of attempt b%d besides the delivered attempt b%d", a.Backend, first.Backend), wit)
+		}
+	}
+	// trailer fields are end-to-end header fields of the attempt as well
+	if c.Faults[first.Backend].Trailer && res.BodyErr == "" {
+		want := "sum-" + xo[0]
+		if got := res.Trailer["X-Checksum"]; len(got) != 1 || got[0] != want {
+			run.Violation("C02/trailer-dropped/"+c.Engine, fmt.Sprintf("the backend ended its chunked answer with the trailer X-Checksum: %s (announced in its Trailer header); the client received trailers %v", want, res.Trailer), wit)
 		}
 	}
 	// body
